@@ -392,7 +392,7 @@ impl FixtureDatabase {
         assert(ds[i0] == dv(def));
         lemma_ff_best_step(ds, cand, i0);
     }
-@before if 3
+@after for 1
     proof { assert(ds.take(ds.len() as int) =~= ds); }
 @return 2
     assert(first_match(ds, p_same(file, fs_true())) is None);
